@@ -335,7 +335,18 @@ func ruleDispatcherExit(c *chk.Ctx) {
 	n := 0
 	ir.Instrs(f, func(ins ssa.Instruction) {
 		r, ok := ins.(*ssa.Return)
-		if !ok || len(r.Results) == 0 || !ir.IsNilConst(ir.ReturnResult(r, 0)) {
+		if !ok || len(r.Results) == 0 {
+			return
+		}
+		// a give-up return: no dispatcher (nil), or "nothing dequeued" reported by a trailing
+		// ok flag when the dequeue lives in a helper
+		giveUp := ir.IsNilConst(ir.ReturnResult(r, 0))
+		if last := ir.ReturnResult(r, len(r.Results)-1); !giveUp && len(r.Results) >= 2 && last.Type().String() == "bool" {
+			if k, isK := last.(*ssa.Const); isK && k.Value != nil && k.Value.String() == "false" {
+				giveUp = true
+			}
+		}
+		if !giveUp {
 			return
 		}
 		n++
